@@ -123,10 +123,10 @@ def run(tier):
             V.violation(f"{PID}|band|{what}|{'odd' if it[0] % 2 else 'even'}_N", {"kind": "band_case", "item": list(it), "message": f"band_limited_noise{it}: {what}: {got} vs {exp}"})
     # shaping filter contract
     rnd = random.Random(sd + 61)
-    grid = [(al, fs, fmin, fmax) for al in (0.01, 0.25, 0.5, 1.0, 1.5, 2.0) for (fs, fmin, fmax) in ((100.0, 0.01, 10.0), (1000.0, 0.1, 500.0), (2.0, 1e-4, 0.2), (10.0, 0.5, 5.0))]
+    grid = [(al, fs, fmin, fmax) for al in (0.01, 0.25, 0.5, 1.0, 1.5, 2.0) for (fs, fmin, fmax) in ((100.0, 0.01, 10.0), (1000.0, 0.1, 500.0), (2.0, 1e-4, 0.2), (10.0, 0.5, 5.0), (100.0, 1.0, 40.0), (1000.0, 0.05, 1.0))]
     if tier == "thorough":
         grid += [(round(rnd.uniform(0.01, 2.0), 3), fs, fmin, fmax) for fs, fmin, fmax in ((50.0, 0.003, 25.0), (1.0, 1e-5, 0.5), (400.0, 1.0, 40.0)) for _ in range(8)]
-    specs = [dict(grid=grid[i::4]) for i in range(4)]
+    specs = [dict(grid=grid[i::6]) for i in range(6)]
     trs = common.pmap(record_filter, specs, chunksize=1)
     vd, tres = traces.validate("FilterTrace", f"{PID}_trace", trs)
     V.model(tres, "FilterTrace.tla (shaping-filter contract, coefficient structure, white variance)")
